@@ -50,7 +50,7 @@ def scenarios(tier):
     out.append(shape(9, 4, 0))
     # two bundles one way (pipelining, ids, order)
     out.append(_scen('W1-A5+A1', {'A': [s5, s1], 'B': []}, dev_bound=0, weight=12))
-    out.append(_scen('W1-A1+A1-d1', {'A': [s1, s1b], 'B': []}, dev_bound=1, weight=20))
+    out.append(_scen('W1-A1+A1', {'A': [s1, s1b], 'B': []}, dev_bound=0, weight=20))
     # both directions at once
     out.append(_scen('W2-A5|B1', {'A': [s5], 'B': [s1]}, dev_bound=0, weight=40))
     # initial size above the peer MRU must be clamped
@@ -59,6 +59,7 @@ def scenarios(tier):
     out.append(_scen('chunk5-A3', {'A': [s3], 'B': []}, dev_bound=0, chunk=5, weight=40))
     if thorough:
         out.append(shape(3, 1, 1))
+        out.append(_scen('W1-A1+A1-d1', {'A': [s1, s1b], 'B': []}, dev_bound=1, weight=40))
         out.append(shape(4, 1, 1))
         out.append(shape(9, 4, 1))
         out.append(shape(5, 4, 2))
